@@ -85,6 +85,20 @@ class C11(Prop):
                                     "opts": {"announce": [URLS[0]]}, "extra_top": {"announce": URLS[0]}, "clauses": cl})
         return out
 
+    def corruptions(self, recs):
+        import copy
+        from .mutate import first
+        out = []
+        for r in first(recs, lambda r: r["status"] == "ok" and len(r["tr"]) >= 1):
+            m = copy.deepcopy(r)
+            m["tr"] = m["tr"][1:]
+            out.append((m, "C11.tr"))
+        for r in first(recs, lambda r: r["status"] == "ok" and r["xt"]):
+            m = copy.deepcopy(r)
+            m["xt"][0]["eq_sha1"] = m["xt"][0]["eq_sha256"] = False
+            out.append((m, "C11.xt"))
+        return out
+
     def nontrivial(self, case):
         return (case["src"], case["version"], case["tree"]["name"], bool(case["tree"].get("single")), case["request"],
                 case["route"], str(case.get("opts")), str(case.get("extra_top")), str(case.get("extra_info")))
